@@ -62,6 +62,7 @@ class Bridge(object):
     self.recent = {}    # mac -> port of its most recent frame (what an ideal bridge holds)
     self.belief = {}    # mac -> port of its most recent frame that reached the controller
     self.flows = []     # possibly installed cache entries (upper bound)
+    self.mask = {}      # mac -> why the controller may have missed its latest frame ("cached-flow" / "unexplained-flow")
     self.stats = {"hit": 0, "miss": 0, "stale_hit": 0, "masked": 0, "hold_down": 0}
 
   # ------------------------------------------------------------------ ideal behaviour
@@ -128,6 +129,7 @@ class Bridge(object):
     if packet_in:
       self.stats["miss"] += 1
       self.belief[src] = in_port
+      self.mask.pop(src, None)
       want = self.ideal(in_port, dst, ethertype, self.belief)
       if so == sorted(want_ideal):
         pass
@@ -139,7 +141,7 @@ class Bridge(object):
         v.append(("not-most-recent-port",
                   "destination last seen on port %r, frame delivered to %r: the move was never learned because the "
                   "frame that showed it was forwarded by a cached flow" % (self.recent.get(dst), outs),
-                  {"cause": "learning-masked-by-cached-flow"}))
+                  {"cause": "learning-masked-by-" + self.mask.get(dst, "unexplained-flow")}))
       else:
         v.append(("controller-forwarding",
                   "%s destination, ingress %d: expected out %r, observed %r (most recent port %r, port at the last "
@@ -157,6 +159,12 @@ class Bridge(object):
     else:
       self.stats["hit"] += 1
       explained = [f for f in live if ([] if f.out is None else [f.out]) == so]
+      if self.belief.get(src) != in_port:
+        # the controller does not get to see that src is on in_port now
+        if not explained:
+          self.mask[src] = "unexplained-flow"
+        else:
+          self.mask.setdefault(src, "cached-flow")
       if explained:
         for f in explained:
           f.t_touch = now
